@@ -164,6 +164,7 @@ def run(rep, tier, seed, replay):
     rep.extra["disagreements_with_model"] = nbad
     if not replay and len(rep.violations) < 5:
         E2E.run_listener_scenarios(rep, "C18", tier, seed)
+        E2E.run_tcp_concurrent(rep, "C18", tier, seed)
         E2E.run(rep, "C18", tier, seed, n_quick=4, n_thorough=60, gen=E2E.gen_order_case, key="e2e_order")
         E2E.run(rep, "C18", tier, seed, n_quick=3, n_thorough=24, gen=E2E.gen_big_datagram_case, key="e2e_bigdatagram")
         rep.cov["rule"] += ("; plus, against the built binary (main.go's wiring of the three listeners): %d UDP bursts against a packet queue of 0-4 entries (packets = processed + dropped, "
